@@ -2,6 +2,7 @@ SPECIFICATION Spec
 INVARIANT FramingHolds
 INVARIANT Complete
 PROPERTY AppendOnly
+PROPERTY IdleNoOp
 CHECK_DEADLOCK FALSE
 CONSTANTS
  Kinds = {"beast", "raw", "skysense"}
